@@ -26,7 +26,7 @@ Oracle: metamorphic end-to-end runs (K5): the same input under sampled subsets o
 class must give the same solved status and the same objective as the all-off baseline.
 """
 import json, random, itertools, time
-from fpv import models, k2, gen, inject
+from fpv import models, k2, gen, inject, common
 from fpv.common import frac
 
 THEOREMS = ["FP.Props.C05.opt_preserved", "FP.Props.C05.sat_append", "FP.Props.C05.lowerBound_row_equiv",
@@ -137,7 +137,7 @@ DAG_FLAGS = ["optimize_with_safe_paths", "optimize_with_safe_sequences", "optimi
              "optimize_with_safety_from_largest_antichain"]
 KFD_FLAGS = ["optimize_with_greedy", "optimize_with_flow_safe_paths"]
 MFD_FLAGS = ["use_min_gen_set_lowerbound", "optimize_with_guessed_weights",
-             "use_min_gen_set_lowerbound_partition_constraints"]
+             "use_min_gen_set_lowerbound_partition_constraints", "use_subgraph_scanning_lowerbound"]
 CYC_FLAGS = ["optimize_with_safe_sequences", "optimize_with_safe_sequences_allow_geq_constraints",
              "optimize_with_safe_sequences_fix_via_bounds", "optimize_with_safe_sequences_fix_zero_edges",
              "optimize_with_safety_as_subset_constraints", "optimize_with_max_safe_antichain_as_subset_constraints"]
@@ -162,6 +162,10 @@ def outcome(fp, inst, opts):
         m = models.build(fp, inst2)
     except ValueError as e:
         return ("rejected", str(e)[:80])
+    except common.Infra:
+        raise
+    except Exception as e:              # a crash of the constructor is an outcome too (and differs from any other)
+        return (f"constructor raised {type(e).__name__}", str(e)[:80])
     log = inject.instrument_statuses(fp)
     del log[:]
     try:
@@ -170,6 +174,10 @@ def outcome(fp, inst, opts):
         return ("exit() called", None)
     except ValueError as e:             # Min* wrappers construct their k-models (and meet option conflicts) in solve()
         return ("rejected", str(e)[:80])
+    except common.Infra:
+        raise
+    except Exception as e:
+        return (f"solve() raised {type(e).__name__}", str(e)[:80])
     if not ok:
         # a run that ended on a time limit / solver error is no verdict: nothing to compare (C13 covers what is reported)
         bad = [st for st in log if st not in ("kOptimal", "kInfeasible")]
@@ -269,6 +277,23 @@ def loop_twice_instance(rng, cls):
     return inst
 
 
+def unreachable_cycle_instance(rng, cls):
+    """a valid cyclic input plus a cycle that nothing enters (its nodes are not reachable from any source), leading into
+    the graph, all of it with flow 0: no walk can use those edges, nothing has to be explained on them"""
+    inst = loop_twice_instance(rng, cls) if rng.random() < 0.5 else pendant_cycle_instance(rng, cls)
+    at = rng.choice([v for v in inst["nodes"] if any(e[0] == v for e in inst["edges"]) and any(e[1] == v for e in inst["edges"])])
+    extra = [["x9", "y9"], ["y9", "x9"], [rng.choice(["x9", "y9"]), at]]
+    if rng.random() < 0.3:
+        extra.append(["x9", "x9"])
+    inst["nodes"] = inst["nodes"] + ["x9", "y9"]; rng.shuffle(inst["nodes"])
+    inst["edges"] = inst["edges"] + extra; rng.shuffle(inst["edges"])
+    if "flow" in inst:
+        inst["flow"] = inst["flow"] + [[u, v, "0"] for u, v in extra]
+        if rng.random() < 0.3:
+            inst["ignore"] = [list(e) for e in extra]
+    return inst
+
+
 def pendant_cycle_instance(rng, cls):
     """a cycle hanging at a node v of the main route (the walk enters and leaves the SCC at the same node), followed by a
     fork: the safe sequence holds the entry and exit edges of v next to each other with no SCC edge between them"""
@@ -326,7 +351,79 @@ def rounding_instance(rng, cls):
     return inst
 
 
+def scanning_instance(rng):
+    """a long DAG (more nodes than the scanning window of MinFlowDecomp.subgraph_lowerbound_size = 20 nodes in
+    topological order): a chain of single edges and bubbles carrying planted paths. Most bubbles split the paths the same
+    way (so the optimum is the number of groups); a bubble whose edges cross the window boundary — found in the
+    topological order networkx really yields for the graph — splits them differently and is ignored (wholly or in part),
+    i.e. ignoring really lowers the optimum and the ignored edges cross the boundary."""
+    import networkx as nx
+    npaths = rng.randint(3, 4)
+    wts = rng.sample(range(1, 12), npaths)
+
+    def split(other=None):
+        while True:
+            side = [rng.randrange(2) for _ in range(npaths)]
+            if len(set(side)) == 2 and (other is None or (side != other and side != [1 - x for x in other])):
+                return side
+    side0 = split()
+    target = rng.randint(23, 30)
+    segs = []                       # (cur, nxt, mids or None)
+    cur, n, i = "c00", 1, 0
+    while n < target:
+        i += 1
+        nxt = f"c{i:02d}"
+        if rng.random() < 0.3 or 14 <= n <= 21:
+            segs.append((cur, nxt, [f"m{i:02d}a", f"m{i:02d}b"])); n += 3
+        else:
+            segs.append((cur, nxt, None)); n += 1
+        cur = nxt
+    edges = []
+    for (u, v, mids) in segs:
+        edges += [(u, v)] if mids is None else [(u, mids[0]), (mids[0], v), (u, mids[1]), (mids[1], v)]
+    rng.shuffle(edges)
+    nodes = sorted({x for e in edges for x in e}); rng.shuffle(nodes)
+    G = nx.DiGraph(); G.add_nodes_from(nodes); G.add_edges_from(edges)
+    pos = {v: j for j, v in enumerate(nx.topological_sort(G))}
+    W = 20
+    fl, ignore = {}, []
+    for (u, v, mids) in segs:
+        if mids is None:
+            fl[(u, v)] = sum(wts); continue
+        es = [(u, mids[0]), (mids[0], v), (u, mids[1]), (mids[1], v)]
+        crossing = [e for e in es if (pos[e[0]] < W) != (pos[e[1]] < W)]
+        odd = bool(crossing) or rng.random() < 0.2
+        side = split(side0) if odd else side0
+        for b, m in enumerate(mids):
+            f = sum(w for w, sd in zip(wts, side) if sd == b)
+            fl[(u, m)] = f; fl[(m, v)] = f
+        if crossing:
+            r = rng.random()
+            ignore += es if r < 0.5 else crossing if r < 0.8 else es[1::2] if r < 0.9 else es[0::2]
+        elif odd and rng.random() < 0.85:
+            ignore += es
+    for e in fl:
+        if e not in ignore and rng.random() < 0.03:
+            ignore.append(e)
+    return {"cls": "MinFlowDecomp", "nodes": nodes, "edges": [list(e) for e in edges], "origin": "edge",
+            "weight_type": "int", "constraints": [], "coverage": "1", "ignore": [list(e) for e in ignore],
+            "starts": [], "ends": [], "options": {}, "flow": [[u, v, str(fl[(u, v)])] for (u, v) in edges],
+            "planted_routes": npaths}
+
+
+SCANNING_FLAGSETS = [["use_subgraph_scanning_lowerbound"],
+                     ["use_subgraph_scanning_lowerbound", "use_min_gen_set_lowerbound", "optimize_with_greedy"]]
+
+
+def scanning_cases(ctx, suite="K5.subgraph_scanning_lowerbound"):
+    """MinFlowDecomp's subgraph-scanning lower bound only does something on graphs with more than 21 nodes"""
+    for it in range(ctx.n(10, 60)):
+        metamorphic(ctx, scanning_instance(ctx.rng), SCANNING_FLAGSETS, suite=suite)
+
+
 def gen_inst(rng, cls):
+    if models.is_cyc(cls) and cls not in models.COVER and rng.random() < 0.12:
+        return unreachable_cycle_instance(rng, cls)
     if models.is_cyc(cls) and rng.random() < 0.5:
         return loop_twice_instance(rng, cls) if rng.random() < 0.6 else pendant_cycle_instance(rng, cls)
     if cls in ("kFlowDecomp", "MinFlowDecomp") and rng.random() < 0.4:
@@ -363,6 +460,11 @@ def run(ctx):
             ctx.disagree("K2." + name, {"safety_fixes_reached": wired}, None, None,
                          note="_apply_safety_optimizations ran in a DAG model: FP/Model/PathSafetyRows.lean no longer mirrors the code")
     flow_safe_ignored_cases(ctx)
+    scanning_cases(ctx)
+    for cls in ("kFlowDecompCycles", "MinFlowDecompCycles", "kLeastAbsErrorsCycles", "kMinPathErrorCycles"):
+        for it in range(ctx.n(1, 6)):
+            metamorphic(ctx, unreachable_cycle_instance(rng, cls), sample_flagsets(rng, flags_of(cls), 1),
+                        suite="K5.unreachable_zero_flow_cycle")
     per = ctx.n(4, 16)
     first = True
     for cls in models.ALL_CLASSES:
